@@ -417,6 +417,24 @@ func checkCommitWalk(c *Ctx) {
 			if len(order) == 3 && order[0] == "wait" && order[1] == "wait" && order[2] == "close:param#2.bundleEntry" {
 				okClose = true
 			}
+			// and the directory walkers are waited for first: they are the ones that register file uploads (a wait on
+			// the uploads that runs first can return before a deeper directory has added any)
+			var waits []string
+			ast.Inspect(l.Body, func(n ast.Node) bool {
+				if call, ok := n.(*ast.CallExpr); ok && calleeID(wk.Info(), call) == "sync.WaitGroup.Wait" {
+					if sel, ok := ast.Unparen(call.Fun).(*ast.SelectorExpr); ok {
+						if _, isField := ast.Unparen(sel.X).(*ast.SelectorExpr); isField {
+							waits = append(waits, "walkers") // the wait group kept in the directory-walk struct
+						} else {
+							waits = append(waits, "uploads")
+						}
+					}
+				}
+				return true
+			})
+			if len(waits) == 2 && !(waits[0] == "walkers" && waits[1] == "uploads") {
+				okClose = false
+			}
 		}
 		c.check(okClose, "commit.walk", wk.ID+":close-after-wait", p.Pos(wk.Decl.Pos()), "the entry channel is closed after the directory and file wait groups", "the bundle-entry channel is no longer closed after waiting for both wait groups: the collector stops before every file was reported, or never stops")
 	}
